@@ -96,7 +96,7 @@ func B(id int) bool {
 	return b
 }
 
-// N is a small tape-driven number in [0,n): reads ceil(log2 n) bits.
+// N is a small tape-driven number in [0,n): reads ceil(log2 n) bits and always logs the result.
 func N(id int, n int) int {
 	v := 0
 	for m := 1; m < n; m *= 2 {
@@ -108,6 +108,7 @@ func N(id int, n int) int {
 	if n > 0 {
 		v %= n
 	}
+	Log("n" + strconv.Itoa(id) + "=" + strconv.Itoa(v))
 	return v
 }
 
